@@ -24,14 +24,15 @@ def pytest_configure(config):
     def recv(self, header, message):
         with LOCK:
             STATE["messages"] += 1
-            k = id(self)
-            if k not in last:
+            prev = getattr(self, "_skv_last_id", None)      # kept on the peer object itself (id() values get reused)
+            if prev is None:
                 STATE["connections"] += 1
-            exp = last.get(k, 0) + 1
+                prev = 0
+            exp = prev + 1
             if header.id != exp and len(STATE["order_violations"]) < 10:
                 STATE["order_violations"].append("connection %s: got message id %d, expected %d (%s)" % (
                     self.host, header.id, exp, type(message).__name__))
-            last[k] = header.id
+            self._skv_last_id = header.id
         return orig(self, header, message)
     rp.ConnectedRemotePeer.handle_message_received = recv
 
